@@ -39,10 +39,13 @@ ASSUMPTIONS = ['no veriT binary and no recorded proof files in the repository (s
                'a macro returning None (no theorem) is counted as returned_none, not as an acceptance']
 REQUIRED = {'quick': {'rules_accepted_on_correct_instance': 50, 'accepted_judged': 1800, 'rejected': 3500,
                       'nearmiss_accepted_judged': 150, 'oracle:held': 1600, 'e2e_scripts_validated': 120,
-                      'e2e_steps_accepted': 900},
+                      'e2e_steps_accepted': 900, 'e2e_subproof_closings_checked': 60,
+                      'e2e_subproof_closings_with_several_assumptions': 30, 'e2e_subproof_assumption_after_nested_block': 10},
             'thorough': {'rules_accepted_on_correct_instance': 50, 'accepted_judged': 40000, 'rejected': 100000,
                          'nearmiss_accepted_judged': 5000, 'oracle:held': 35000, 'e2e_scripts_validated': 3000,
-                         'e2e_steps_accepted': 20000}}
+                         'e2e_steps_accepted': 20000, 'e2e_subproof_closings_checked': 1200,
+                         'e2e_subproof_closings_with_several_assumptions': 600,
+                         'e2e_subproof_assumption_after_nested_block': 200}}
 SHARD_TIMEOUT = {'quick': 600, 'thorough': 3600}
 
 DISCHARGING = ('verit_bind', 'verit_sko_ex', 'verit_sko_forall', 'verit_let', 'verit_subproof', 'verit_onepoint')
@@ -592,24 +595,87 @@ def build_script(rng, want_sat):
                 rule, cl = rng.choice(ts)
                 c2, _ = claim(cl, rule)
                 emit(rule, c2)
-    # optional subproof that uses an outer clause
-    if rng.random() < 0.3:
-        two = [(sid, c) for sid, c in clauses if len(c) == 2 and c[0] != c[1] and sid.startswith('t')]
-        if two:
+    # optional subproofs: one to three local assumptions, possibly a nested subproof between them (so that an
+    # assumption is made after an inner block has been closed), a last step that depends on some of the assumptions,
+    # and a closing clause that is correct or a near miss (an assumption left out, two swapped, other conclusion);
+    # a near miss is followed by the correct closing as a fallback that is tried only when the near miss is refused
+    def subproof(prefix, depth):
+        if prefix:
+            n[0] += 1
+            sp = '%st%d' % (prefix, n[0])
+        else:
+            sp = fresh()
+        lines.append((sp, '(anchor :step %s)' % sp, 'anchor'))
+        k = rng.choice([1, 1, 2, 2, 3])
+        As = e.lits(k)
+        concl = None
+        inner_step = None
+        two = [(sid, c) for sid, c in clauses if len(c) == 2 and c[0] != c[1] and sid.startswith('t') and '.' not in sid]
+        use_outer = bool(two) and rng.random() < 0.5
+        if use_outer:
             sid, c = rng.choice(two)
             m = rng.choice(c)
             other = [x for x in c if x != m][0]
             L = neg(m) if m[0] == 'not' else ('not', m)
-            sp = fresh()
-            lines.append((sp, '(anchor :step %s)' % sp, 'anchor'))
-            hid = sp + '.h1'
-            lines.append((hid, '(assume %s %s)' % (hid, smt(L)), 'assume'))
-            inner = sp + '.t1'
+            As[rng.randrange(k)] = L
+            if len(set(map(repr, As))) < k:
+                As = [L]
+                k = 1
+        nest_at = rng.randrange(k + 1) if depth < 2 and rng.random() < 0.5 else None
+        hids = []
+        cnt = [0]
+        for i in range(k + 1):
+            if nest_at == i:
+                subproof(sp + '.', depth + 1)
+            if i < k:
+                hid = '%s.h%d' % (sp, i + 1)
+                hids.append(hid)
+                lines.append((hid, '(assume %s %s)' % (hid, smt(As[i])), 'assume'))
+        n[0] += 1
+        inner = '%s.t%d' % (sp, n[0])
+        if use_outer:
+            j = [repr(a) for a in As].index(repr(L))
             rule = rng.choice(['resolution', 'th_resolution'])
-            lines.append((inner, '(step %s (cl %s) :rule %s :premises (%s %s))' % (inner, smt(other), rule, hid, sid), rule))
-            lines.append((sp, '(step %s (cl %s %s) :rule subproof)' % (sp, smt(('not', L)), smt(other)),
-                          'subproof'))
-            clauses.append((sp, [('not', L), other]))
+            lines.append((inner, '(step %s (cl %s) :rule %s :premises (%s %s))' % (inner, smt(other), rule, hids[j], sid), rule))
+            concl = other
+        else:
+            j = rng.randrange(k)
+            lines.append((inner, '(step %s (cl %s) :rule th_resolution :premises (%s))' % (inner, smt(As[j]), hids[j]),
+                          'th_resolution'))
+            concl = As[j]
+        good = [('not', a) for a in As] + [concl]
+        if rng.random() < 0.4:
+            bad = list(good)
+            kinds = ['wrong-concl', 'not-negated']
+            if k >= 2:
+                kinds += ['drop-assm', 'drop-assm', 'drop-assm', 'swap-assms']
+            kd = rng.choice(kinds)
+            if kd == 'drop-assm':
+                cand = [i for i in range(k)]
+                # preferably keep the discharge of an assumption that is not used and drop a used one, or the other way
+                del bad[rng.choice(cand)]
+            elif kd == 'swap-assms':
+                i, j2 = rng.sample(range(k), 2)
+                bad[i], bad[j2] = bad[j2], bad[i]
+            elif kd == 'wrong-concl':
+                bad[-1] = e.lit()
+            else:
+                i = rng.randrange(k)
+                bad[i] = As[i]
+            if bad != good:
+                lines.append((sp, '(step %s (cl %s) :rule subproof)' % (sp, ' '.join(smt(x) for x in bad)), 'subproof'))
+                lines.append((sp, '(step %s (cl %s) :rule subproof)' % (sp, ' '.join(smt(x) for x in good)),
+                              'subproof-fallback'))
+            else:
+                lines.append((sp, '(step %s (cl %s) :rule subproof)' % (sp, ' '.join(smt(x) for x in good)), 'subproof'))
+        else:
+            lines.append((sp, '(step %s (cl %s) :rule subproof)' % (sp, ' '.join(smt(x) for x in good)), 'subproof'))
+        if not prefix:
+            clauses.append((sp, good))
+        return sp
+
+    for _ in range(rng.choice([0, 0, 1, 1, 2])):
+        subproof('', 0)
     # resolution rounds, greedy towards short clauses
     seen = set(tuple(map(repr, c)) for _, c in clauses)
     for _ in range(rng.choice([6, 10, 14])):
@@ -671,7 +737,12 @@ def run_e2e_script(ctx, mon, rng, idx, text_lines=None, atoms=None):
     recon = proof_rec.ProofReconstruction([])
     kept = []
     verdict_at = {}
+    accepted_ids = set()
     for sid, txt, rule, st in steps:
+        if rule == 'subproof-fallback':
+            if sid in accepted_ids:
+                continue
+            rule = 'subproof'
         recon.steps.append(st)
         recon.steps_dict[st.id] = st
         recon.step_map[st.id] = st
@@ -690,6 +761,7 @@ def run_e2e_script(ctx, mon, rng, idx, text_lines=None, atoms=None):
             continue
         kept.append((sid, txt, rule, st))
         if isinstance(st, command.Step):
+            accepted_ids.add(sid)
             ctx.count('e2e_steps_accepted')
             ctx.count('e2e_acc:' + rule)
             verdict_at[len(kept) - 1] = mon.last
@@ -717,6 +789,34 @@ def run_e2e_script(ctx, mon, rng, idx, text_lines=None, atoms=None):
             continue
         hy = tuple(S.tm_shadow(h) for h in p.th.hyps)
         pr = S.tm_shadow(p.th.prop)
+        if rule == 'subproof' and isinstance(st, command.Step) and k > 0:
+            # every assumption made in this block that the last step of the block depends on must be discharged
+            # by the closing clause or stay a hypothesis of the result (the recorded finding "subproof loses the
+            # hypotheses of its last premise" is about hypotheses from OUTSIDE the block; this is about the block's own)
+            ctx.count('e2e_subproof_closings_checked')
+            lastp = rec2.pts.get(kept[k - 1][3].id) if not isinstance(kept[k - 1][3], command.Anchor) else None
+            if lastp is not None and lastp.th is not None:
+                last_h = set(S.alpha(S.tm_shadow(h)) for h in lastp.th.hyps)
+                res_h = set(S.alpha(h) for h in hy)
+                lits = set(S.alpha(S.tm_shadow(c)) for c in st.cl)
+                local = [x for x in kept[:k] if isinstance(x[3], command.Assume) and x[0].rsplit('.', 1)[0] == sid]
+                ctx.count('e2e_subproof_local_assumptions', len(local))
+                if len(local) >= 2:
+                    ctx.count('e2e_subproof_closings_with_several_assumptions')
+                if any(isinstance(x[3], command.Anchor) for x in kept[:k] if x[0].startswith(sid + '.')) and local \
+                        and kept.index(local[-1]) > max(i for i, x in enumerate(kept[:k])
+                                                          if isinstance(x[3], command.Anchor) and x[0].startswith(sid + '.')):
+                    ctx.count('e2e_subproof_assumption_after_nested_block')
+                for x in local:
+                    A = S.tm_shadow(x[3].assm)
+                    nA = ('comb', ('const', 'neg', S.fun(S.BOOL, S.BOOL)), A)
+                    if S.alpha(A) in last_h and S.alpha(A) not in res_h and S.alpha(nA) not in lits:
+                        ctx.violation('e2e:subproof:local-assumption-neither-discharged-nor-kept',
+                                      'subproof step %s was accepted with the clause %s although the last step of its '
+                                      'block depends on the block\'s assumption %s (%s), which is neither discharged '
+                                      'by the clause nor kept as a hypothesis' % (sid, txt, x[0], S.tm_str(A)),
+                                      {'e2e_text': [list(y[:3]) for y in kept], 'atoms': atoms, 'step': sid})
+                        break
         ok, w = O.tt_sequent_valid(hy, pr)
         ctx.count('e2e_tt:' + str(ok))
         if ok is False:
